@@ -18,7 +18,16 @@ use barter_instrument::{
     Side, Underlying,
     asset::QuoteAsset,
     exchange::ExchangeId,
-    instrument::{Instrument, InstrumentIndex},
+    instrument::{
+        Instrument, InstrumentIndex,
+        kind::{
+            InstrumentKind,
+            future::FutureContract,
+            option::{OptionContract, OptionExercise, OptionKind},
+            perpetual::PerpetualContract,
+        },
+        quote::InstrumentQuoteAsset,
+    },
 };
 use chrono::{DateTime, TimeZone, Utc};
 use rust_decimal::Decimal;
@@ -137,16 +146,74 @@ pub fn coq_exit(x: &PositionExited<QuoteAsset, InstrumentIndex>) -> String {
     )
 }
 
+/// the instrument the InstrumentState path is built for: kind (0 spot, 1 perpetual, 2 future,
+/// 3 option), contract size, settlement asset = quote asset or another one. The position code never
+/// reads it; it is varied so that a change that starts reading it is seen.
+#[derive(Clone, Copy, Debug)]
+pub struct Ik {
+    kind: u64,
+    size: Decimal,
+    settle_quote: bool,
+}
+
+impl Ik {
+    fn spot() -> Ik {
+        Ik { kind: 0, size: Decimal::ONE, settle_quote: true }
+    }
+    fn to_json(&self) -> Value {
+        json!({"kind": self.kind, "size": self.size.to_string(), "settle_quote": self.settle_quote})
+    }
+    fn from_json(v: &Value) -> Ik {
+        if v.is_null() {
+            return Ik::spot();
+        }
+        Ik {
+            kind: v["kind"].as_u64().unwrap_or(0),
+            size: if v["size"].is_null() { Decimal::ONE } else { json_dec(&v["size"]) },
+            settle_quote: v["settle_quote"].as_bool().unwrap_or(true),
+        }
+    }
+    fn coq(&self) -> String {
+        let size = if self.kind == 0 { Decimal::ONE } else { self.size };
+        pair(&n(self.kind.min(3) as u128), &dec_q(size))
+    }
+    fn tag(&self) -> String {
+        format!(
+            "instrument_state_{}_size_{}",
+            ["spot", "perp", "future", "option"][self.kind.min(3) as usize],
+            if self.kind == 0 { Decimal::ONE } else { self.size.normalize() }
+        )
+    }
+}
+
 fn new_instrument_state(
     inst: u64,
+    ik: Ik,
 ) -> InstrumentState<DefaultInstrumentMarketData, ExchangeId, &'static str, InstrumentIndex> {
+    let settle: &'static str = if ik.settle_quote { "usdt" } else { "usdc" };
+    let expiry = time_of(1_900_000_000_000);
+    let kind = match ik.kind {
+        0 => InstrumentKind::Spot,
+        1 => InstrumentKind::Perpetual(PerpetualContract { contract_size: ik.size, settlement_asset: settle }),
+        2 => InstrumentKind::Future(FutureContract { contract_size: ik.size, settlement_asset: settle, expiry }),
+        _ => InstrumentKind::Option(OptionContract {
+            contract_size: ik.size,
+            settlement_asset: settle,
+            kind: OptionKind::Put,
+            exercise: OptionExercise::American,
+            expiry,
+            strike: mk_dec(100, 0),
+        }),
+    };
     InstrumentState::new(
         InstrumentIndex(inst as usize),
-        Instrument::spot(
-            ExchangeId::BinanceSpot,
-            "binance_spot_btc_usdt",
-            "BTCUSDT",
+        Instrument::new(
+            if ik.kind == 0 { ExchangeId::BinanceSpot } else { ExchangeId::Okx },
+            "okx_btc_usdt_x",
+            "BTCUSDTX",
             Underlying::new("btc", "usdt"),
+            InstrumentQuoteAsset::UnderlyingQuote,
+            kind,
             None,
         ),
         TearSheetGenerator::init(time_of(0)),
@@ -190,8 +257,8 @@ fn classify(
     )
 }
 
-fn run_case(fills: &[F]) -> (String, Vec<String>) {
-    let mut tags = vec![];
+fn run_case(fills: &[F], ik: Ik) -> (String, Vec<String>) {
+    let mut tags = vec![ik.tag()];
     // path 1: PositionManager directly; a panic ends the observation list early
     let mut pm: PositionManager<InstrumentIndex> = PositionManager::default();
     let mut obs = vec![];
@@ -222,7 +289,7 @@ fn run_case(fills: &[F]) -> (String, Vec<String>) {
     // path 2: InstrumentState::update_from_trade (also feeds the tear sheet). The tear-sheet
     // statistics (squares of returns) can overflow Decimal on extreme magnitude mixes: that is
     // outside this property, the comparison then stops at that fill and no tear sheet is reported.
-    let mut st = new_instrument_state(fills.first().map(|f| f.inst).unwrap_or(0));
+    let mut st = new_instrument_state(fills.first().map(|f| f.inst).unwrap_or(0), ik);
     let mut pm2: PositionManager<InstrumentIndex> = PositionManager::default();
     let mut agrees = true;
     let mut ts_ok = true;
@@ -258,32 +325,34 @@ fn run_case(fills: &[F]) -> (String, Vec<String>) {
         "None".to_string()
     };
     let coq = format!(
-        "(CFills {} {} {} {})",
+        "(CFills {} {} {} {} {})",
         list(&fills.iter().map(|f| f.coq()).collect::<Vec<_>>()),
         list(&obs),
         b(agrees),
-        ts
+        ts,
+        ik.coq()
     );
     (coq, tags)
 }
 
-fn emit(em: &mut Emitter, stream: &'static str, fills: &[F]) {
+fn emit(em: &mut Emitter, stream: &'static str, fills: &[F], ik: Ik) {
     // a panic anywhere in the case (outside the per-fill catch) must not take the harness down:
     // report an empty observation list, which neither corr_b nor prop_b accept
     let fills2 = fills.to_vec();
-    let (coq, tags) = match catch(move || run_case(&fills2)) {
+    let (coq, tags) = match catch(move || run_case(&fills2, ik)) {
         Ok(x) => x,
         Err(msg) => (
             format!(
-                "(CFills {} [] false None)",
-                list(&fills.iter().map(|f| f.coq()).collect::<Vec<_>>())
+                "(CFills {} [] false None {})",
+                list(&fills.iter().map(|f| f.coq()).collect::<Vec<_>>()),
+                ik.coq()
             ),
             vec![format!("panic:{}", msg.chars().take(60).collect::<String>())],
         ),
     };
     em.emit(Case {
         stream,
-        input: json!({"fills": fills.iter().map(|f| f.to_json()).collect::<Vec<_>>()}),
+        input: json!({"fills": fills.iter().map(|f| f.to_json()).collect::<Vec<_>>(), "instrument": ik.to_json()}),
         coq,
         nontrivial: fills.len() >= 2,
         tags,
@@ -381,7 +450,21 @@ fn gen_history(r: &mut Rng, max_len: u64, adv: bool) -> Vec<F> {
 /// prior state (none / long / short, each fresh, after an increase, after a reduction, after
 /// increase+reduction) x fill side x quantity relation (less / equal / more than open) x fee
 /// (0 / >0) x price (below / at / above entry).
+fn gen_ik(r: &mut Rng) -> Ik {
+    let kind = r.below(4);
+    let sizes = [mk_dec(1, 0), mk_dec(1, 3), mk_dec(1, 2), mk_dec(100, 0)];
+    Ik { kind, size: if kind == 0 { Decimal::ONE } else { *r.pick(&sizes) }, settle_quote: kind == 0 || r.chance(1, 2) }
+}
+
 fn table(em: &mut Emitter) {
+    let iks = [
+        Ik::spot(),
+        Ik { kind: 1, size: mk_dec(1, 3), settle_quote: false },
+        Ik { kind: 2, size: mk_dec(100, 0), settle_quote: true },
+        Ik { kind: 3, size: mk_dec(1, 2), settle_quote: false },
+        Ik { kind: 1, size: mk_dec(1, 0), settle_quote: true },
+    ];
+    let mut case_no = 0usize;
     let d = |m: i64, s: u32| mk_dec(m, s);
     let mut prefixes: Vec<Vec<(bool, i64, i64, i64)>> = vec![vec![]]; // (buy, price, qty*10, fee*10)
     for buy in [true, false] {
@@ -421,7 +504,9 @@ fn table(em: &mut Emitter) {
                             qty: d(q, 1),
                             fee: d(fee, 1),
                         });
-                        emit(em, "table", &fills);
+                        let ik = iks[case_no % iks.len()];
+                        case_no += 1;
+                        emit(em, "table", &fills, ik);
                     }
                 }
             }
@@ -444,17 +529,19 @@ fn main() {
             table(&mut em);
             for _ in 0..n_rand {
                 let fills = gen_history(&mut r, max_len, false);
-                emit(&mut em, "random", &fills);
+                let ik = gen_ik(&mut r);
+                emit(&mut em, "random", &fills, ik);
             }
             for _ in 0..n_adv {
                 let fills = gen_history(&mut r, max_len, true);
-                emit(&mut em, "adversarial", &fills);
+                let ik = gen_ik(&mut r);
+                emit(&mut em, "adversarial", &fills, ik);
             }
         }
         "exec" => {
             for (inp, stream) in read_inputs(args.input.as_deref().expect("--in")) {
                 let fills: Vec<F> = inp["fills"].as_array().unwrap().iter().map(F::from_json).collect();
-                emit(&mut em, stream_static(&stream), &fills);
+                emit(&mut em, stream_static(&stream), &fills, Ik::from_json(&inp["instrument"]));
             }
         }
         m => panic!("unknown mode {m}"),
